@@ -677,6 +677,14 @@ thread_local! {
     static SIDE_DIGEST: std::cell::Cell<u64> = const { std::cell::Cell::new(0) };
 }
 
+/// Adds a number to the side digest of the current op.
+pub(crate) fn side_dig(v: u64) {
+    SIDE_DIGEST.with(|c| c.set((c.get() ^ v ^ 0x9E37_79B9_7F4A_7C15).wrapping_mul(0x100000001b3)));
+}
+
+/// Payload of the panic thrown by the predicate of `Step::PanicSearch`.
+pub(crate) struct PredicatePanic;
+
 pub(crate) fn take_side_digest() -> u64 {
     SIDE_DIGEST.with(|c| c.replace(0))
 }
